@@ -11,20 +11,29 @@ Open Scope Z_scope.
 Inductive rkind := Plain | Seekable | Bufio.
 
 Record reader := mk_reader {
-  r_data : list Z;
+  r_all : list Z;          (* the whole stream (what Seek(0, 0) goes back to) *)
+  r_rest : list Z;         (* the bytes not handed out yet: skipn r_pos r_all *)
   r_pos : Z;
+  r_total : Z;             (* length of r_all *)
   r_fault : option Z;
   r_kind : rkind
 }.
 
-Definition r_len (r : reader) : Z := Z.of_nat (length (r_data r)).
+Definition new_reader (data : list Z) (fault : option Z) (k : rkind) : reader :=
+  mk_reader data data 0 (Z.of_nat (length data)) fault k.
+
+Definition r_len (r : reader) : Z := r_total r.
 (* offset at which Read stops handing out bytes, and whether it stops with the injected error (else EOF) *)
 Definition r_stop (r : reader) : Z * bool :=
   match r_fault r with
   | Some f => if f <=? r_len r then (f, true) else (r_len r, false)
   | None => (r_len r, false)
   end.
-Definition r_with_pos (r : reader) (p : Z) : reader := mk_reader (r_data r) p (r_fault r) (r_kind r).
+(* consume n bytes (0 <= n <= bytes left) *)
+Definition r_advance (r : reader) (n : Z) : reader :=
+  mk_reader (r_all r) (skipn (Z.to_nat n) (r_rest r)) (r_pos r + n) (r_total r) (r_fault r) (r_kind r).
+Definition r_seek0 (r : reader) : reader :=
+  mk_reader (r_all r) (r_all r) 0 (r_total r) (r_fault r) (r_kind r).
 
 Inductive rerr := RInjected | REOF | RUnexpectedEOF.
 
@@ -32,17 +41,17 @@ Inductive rerr := RInjected | REOF | RUnexpectedEOF.
 Definition read_full (r : reader) (n : Z) : (list Z * option rerr) * reader :=
   let '(stop, inj) := r_stop r in
   let avail := Z.max 0 (stop - r_pos r) in
-  if n <=? avail then ((slice (r_data r) (r_pos r) (r_pos r + n), None), r_with_pos r (r_pos r + n))
-  else ((slice (r_data r) (r_pos r) (r_pos r + avail),
+  if n <=? avail then ((firstn (Z.to_nat n) (r_rest r), None), r_advance r n)
+  else ((firstn (Z.to_nat avail) (r_rest r),
          Some (if inj then RInjected else if avail =? 0 then REOF else RUnexpectedEOF)),
-        r_with_pos r (r_pos r + avail)).
+        r_advance r avail).
 
 (* ---- the chunk-by-chunk loop io.ReadFull actually runs (used only in Proofs/ReaderProofs.v and RunC08) ---- *)
 (* one Read(p) with len(p) = want > 0 under a chunk size c >= 1 *)
 Definition read_once (r : reader) (want c : Z) : (Z * option rerr) * reader :=
   let '(stop, inj) := r_stop r in
   if stop <=? r_pos r then ((0, Some (if inj then RInjected else REOF)), r)
-  else let n := Z.min (Z.min want c) (stop - r_pos r) in ((n, None), r_with_pos r (r_pos r + n)).
+  else let n := Z.min (Z.min want c) (stop - r_pos r) in ((n, None), r_advance r n).
 
 Fixpoint read_full_loop (chunks : list Z) (r : reader) (n got : Z) : (Z * option rerr) * reader :=
   if n <=? got then ((got, None), r) else
@@ -105,7 +114,7 @@ Definition auto_detect (r : reader) : res Z * reader :=
           match find_sync b 0 with
           | Some ps =>
               match k with
-              | Seekable => (Ok ps, r_with_pos r1 0)
+              | Seekable => (Ok ps, r_seek0 r1)
               | _ =>
                   let '((_, e2), r2) := read_full r1 (ps - (detect_window - ps)) in
                   match e2 with
@@ -164,6 +173,6 @@ Definition packet_buffer_next (skip : Packet -> bool) (pb : pbuf) (r : reader) :
 (* rewind(r) *)
 Definition rewind_reader (r : reader) : Z * reader :=
   match r_kind r with
-  | Seekable => (0, r_with_pos r 0)
+  | Seekable => (0, r_seek0 r)
   | _ => (-1, r)
   end.
